@@ -282,3 +282,44 @@ Proof.
   intros Hc Hp Hr Hj. destruct (wref P X T) eqn:W; [|lia].
   rewrite (wref_zero_in P X T ch r W Hc Hp Hr) in Hj. discriminate.
 Qed.
+
+(* ---- more on set_chain, and fixed points of erase_tbl with an own MARK rule ---- *)
+Lemma set_chain_same b rs T : find_chain b T = Some rs -> set_chain b rs T = T.
+Proof.
+  induction T as [|[n r0] T IH]; cbn [find_chain set_chain]; [reflexivity|].
+  destruct (bytes_eqb n b); intro H; [injection H as ->; reflexivity | rewrite (IH H); reflexivity].
+Qed.
+
+Lemma set_chain_set b x y T : set_chain b x (set_chain b y T) = set_chain b x T.
+Proof.
+  induction T as [|[n r0] T IH]; cbn [set_chain]; [reflexivity|].
+  destruct (bytes_eqb n b) eqn:E; cbn [set_chain]; rewrite E; [reflexivity | rewrite IH; reflexivity].
+Qed.
+
+Lemma find_chain_in b rs T : find_chain b T = Some rs -> In (b, rs) T.
+Proof.
+  induction T as [|[n r0] T IH]; cbn [find_chain]; [discriminate|].
+  destruct (bytes_eqb n b) eqn:E; intro H.
+  - apply bytes_eqb_eq in E. subst. injection H as ->. left. reflexivity.
+  - right. apply IH. exact H.
+Qed.
+
+Lemma erase_fix_keep cs mk T ch r :
+  erase_tbl cs mk T = T -> In ch T -> In r (snd ch) -> keep_rule cs mk (fst ch) r = true.
+Proof.
+  unfold erase_tbl. intros H Hc Hr.
+  assert (L : length (filter (fun ch : chain => negb (tmem (fst ch) cs)) T) = length T).
+  { rewrite <- H at 2. rewrite map_length. reflexivity. }
+  apply filter_len_all in L. rewrite (filter_all _ _ L) in H. clear L.
+  induction T as [|c0 T IH]; [destruct Hc|].
+  cbn [map] in H. injection H as H0 H1. destruct Hc as [->|Hc]; [|exact (IH H1 Hc)].
+  assert (L : length (filter (keep_rule cs mk (fst ch)) (snd ch)) = length (snd ch)).
+  { apply (f_equal snd) in H0. cbn [snd] in H0. rewrite H0. reflexivity. }
+  apply filter_len_all in L. rewrite forallb_forall in L. exact (L r Hr).
+Qed.
+
+Lemma remove_first_absent M ro : (forall r, In r ro -> rule_eqb r M = false) -> remove_first M ro = None.
+Proof.
+  induction ro as [|x ro IH]; intro H; [reflexivity|]. cbn [remove_first].
+  rewrite (H x (or_introl eq_refl)). rewrite IH; [reflexivity|]. intros r Hr. apply H. right. exact Hr.
+Qed.
